@@ -36,7 +36,8 @@ def writer_args(r):
 def write_file(r, fmt, path, sc=None, pps=None, decimals=None):
     """Writes the recipe. Optional recipe keys: "decoy" = [format, decimals] - another writer (for a tiny other
     scenario) is constructed between the construction and the use of the writer under test; "reuse" = True - the
-    writer first writes the scenario part to a side file and then the full file (a reused writer object)."""
+    writer first writes the scenario part to a side file and then the full file (a reused writer object);
+    "reuse" = "edited" - the scenario was in a different state (lanelet types, left bounds) at the time of that first write."""
     sc = sc if sc is not None else gs.build_scenario(r)
     pps = pps if pps is not None else gs.build_pps(r["pps"])
     args, _ = writer_args(r)
@@ -53,7 +54,18 @@ def write_file(r, fmt, path, sc=None, pps=None, decimals=None):
     import contextlib
     import io
     with contextlib.redirect_stdout(io.StringIO()):
-        if r.get("reuse"):
+        if r.get("reuse") == "edited":
+            # the writer has already written an earlier state of its scenario: lanelet types and left bounds are
+            # changed through their public setters for the side write and set back to the recipe's values afterwards
+            saved = [(la, la.lanelet_type, la.left_vertices) for la in sc.lanelet_network.lanelets]
+            for la, _, left in saved:
+                la.lanelet_type = set()
+                la.left_vertices = left + 0.25
+            w.write_scenario_to_file(path + ".side", OverwriteExistingFile.ALWAYS)
+            for la, types, left in saved:
+                la.lanelet_type = types
+                la.left_vertices = left
+        elif r.get("reuse"):
             w.write_scenario_to_file(path + ".side", OverwriteExistingFile.ALWAYS)
         w.write_to_file(path, OverwriteExistingFile.ALWAYS)
     return sc, pps
